@@ -83,6 +83,7 @@ def run_case(case):
         seeds = [rng.choice([0x0000, 0x0001, 0xFFFE, 0xFFFF, rng.randrange(1 << 16)]) for _ in range(40)]
     ca_, sa_ = rng.choice([(D.CLI, D.SRV), (D.CLI, D.SRV), (0x00, D.SRV), (D.CLI, 0x00), (253, 1)])
     DW = D.Dm14World(case['seed'], seedkey=seedkey, seeds=seeds, windows=(rng.choice([1, 255]), rng.choice([1, 255])), latency=(0.0001, 0.003), cli_addr=ca_, srv_addr=sa_)
+    DW.ctx['respond_inline'] = random.Random(case['seed'] ^ 0x181).random() < 0.25
     E = ErrorServer(DW.W.bus, DW.sim)
     viol = M.Violations()
     tag = dict(layer='dm14')
